@@ -10,11 +10,20 @@ the real objects after every operation, including object identity), no history
 of operations can change a frozen object or reach a caller-owned cell through a
 read-only call or through a copy.
 
+Layers 2 and 3 (`Model/OwnObj.lean`): signature objects, which CONTAIN a sketch value (clone in /
+clone out), and collection views (LinearIndex, LazyLinearIndex, ZipFileLinearIndex with / without
+manifest, MultiIndex, StandaloneManifestIndex: `select` builds a new object; SBT, LCA_Database:
+`select` narrows the receiver in place and returns it, by design).  The second half of this file
+proves the same kind of statement for them; every operation of those layers is a MODELLED op of
+the `own` stream, i.e. compared with the real objects (content, frozen flag, identity class, a
+view's own state and what it yields) after every step.
+
 This property is PARTIAL by nature: a pure model cannot exhibit aliasing it was
 not told about; CPython/cffi object lifetime and aliasing inside native code are
 observed by the stream's monitor, not proved.
 -/
 import SmVerif.Lemmas.Ownership
+import SmVerif.Lemmas.OwnObj
 
 namespace Sm.C15
 
@@ -100,5 +109,259 @@ example :
     let hp2 := (step hp1 (.toFrozen 1 0)).1
     (step hp2 (.add 1 7)).2 = .err "TypeError" ∧ (step hp2 (.add 1 7)).1.cells.length = 2 := by
   decide
+
+/-! # layer 2: signature objects -/
+
+open Sm.Obj
+
+/-- the tie of the alias table to the source: every clone / copy / return-self fact `Model/OwnObj.lean` is built on
+    (bodies of `to_mutable`, `__copy__`, `to_frozen`, `into_frozen`, `update`, the `minhash` getter / setter, the
+    refusing overrides of `FrozenSourmashSignature`, `mh.clone()` in `signature_set_mh` / `signature_first_mh`,
+    `query = query.to_mutable()` in `GatherDatabases.__init__`, `dict(...)` / `list(...)` copies and `return <New>(…)`
+    in every copying `select`, the new row list of `CollectionManifest`, `write_to_csv` leaving the rows alone,
+    append-then-refuse + `return self` in `SBT.select` / `LCA_Database.select`) has been RE-READ from the current
+    source by `harness/translators/own.py` and has the recorded shape.  A changed body turns its constant to
+    `false`: this theorem (and with it the check) fails, naming the fact in `Gen.ownFacts`. -/
+theorem source_clone_discipline : Gen.ownFacts.all (fun p => p.2) = true := by decide
+
+/-- the two facts of that list the model's `step` itself follows (the bodies of `to_mutable` and `update`),
+    discharged by `rfl` against `Generated.lean` INSIDE every theorem below that rests on them -/
+local macro "src!" : term => `((Sm.Obj.SourceOk.mk rfl rfl : Sm.Obj.SourceOk))
+
+/-- frame rule: an existing signature's name, filename, sketch and frozen flag can change only through a handle
+    bound to that very object, by one of its own setters / `add_sequence` / `add_protein` / `__setstate__` /
+    `into_frozen` — whatever else happens in any layer (in particular whatever is done to the sketch it was built
+    from, or to a sketch it handed out) -/
+theorem sig_frame (w : World) (op : Obj.Op) (c : Nat) (cell : SigCell)
+    (hc : w.sigs.cells[c]? = some cell)
+    (hne : ∀ s, sigReceiver op = some s → w.sigs.cid s ≠ some c) :
+    (Obj.step w op).1.sigs.cells[c]? = some cell :=
+  Sm.Obj.sig_frame' src! w op c cell hc hne
+
+/-- every mutator of a frozen signature (`.minhash =`, `.name =`, `.filename =`, `add_sequence`, `add_protein`,
+    `__setstate__`) is refused with ValueError and leaves the WHOLE world as it was.
+    (`__setstate__` is where the code departs: finding C15.1.) -/
+theorem sig_frozen_immutable (w : World) (op : Obj.Op) (s : Nat) (sc : SigCell)
+    (hm : isSigMutator op = true) (hr : sigReceiver op = some s)
+    (hc : w.sigs.cell s = some sc) (hf : sc.frozen = true) (hwf : (Obj.step w op).2 ≠ .bad) :
+    Obj.step w op = (w, .err "ValueError") :=
+  Sm.Obj.sig_frozen_refused' w op s sc hm hr hc hf hwf
+
+/-- **for every history over all three layers**: a frozen signature never changes again -/
+theorem sig_frozen_forever (w : World) (ops : List Obj.Op) (c : Nat) (cell : SigCell)
+    (hc : w.sigs.cells[c]? = some cell) (hf : cell.frozen = true) :
+    (ops.foldl (fun w op => (Obj.step w op).1) w).sigs.cells[c]? = some cell :=
+  Sm.Obj.sig_frozen_cell_foldl src! ops w c cell hc hf
+
+/-- clone-in: NO history of sketch-layer operations (add_hash, merge, clear, … on any sketch object, including the
+    one a signature was built from) changes any signature, view, manifest row or store -/
+theorem sketch_ops_never_reach_signatures (w : World) (ops : List Own.Op) :
+    (ops.foldl (fun w o => (Obj.step w (.mh o)).1) w).sigs = w.sigs ∧
+    (ops.foldl (fun w o => (Obj.step w (.mh o)).1) w).views = w.views ∧
+    (ops.foldl (fun w o => (Obj.step w (.mh o)).1) w).rows = w.rows ∧
+    (ops.foldl (fun w o => (Obj.step w (.mh o)).1) w).stores = w.stores :=
+  Sm.Obj.mh_ops_foldl_others ops w
+
+/-- clone-out: `sig.minhash` is a NEW frozen sketch cell holding a copy of the inner sketch; it never aliases
+    the inner sketch: whatever sketch-layer history follows (on it, on a mutable copy of it, on anything),
+    the signature table stays what it was -/
+theorem sig_minhash_never_aliases (w : World) (r s : Nat) (hok : (Obj.step w (.sMinhash r s)).2 = .ok)
+    (ops : List Own.Op) :
+    (∃ sc, w.sigs.cell s = some sc ∧
+      (Obj.step w (.sMinhash r s)).1.heap.cid r = some w.heap.cells.length ∧
+      (Obj.step w (.sMinhash r s)).1.heap.cells[w.heap.cells.length]? = some ⟨sc.val.mh, true⟩) ∧
+    (ops.foldl (fun w o => (Obj.step w (.mh o)).1) (Obj.step w (.sMinhash r s)).1).sigs = w.sigs := by
+  obtain ⟨sc, h1, h2, h3, h4⟩ := Sm.Obj.sig_minhash_fresh' w r s hok
+  refine ⟨⟨sc, h1, h2, h3⟩, ?_⟩
+  rw [(Sm.Obj.mh_ops_foldl_others ops _).1, h4]
+
+/-- conversely no operation of the signature / view layers writes an existing sketch cell: at most one fresh
+    sketch cell appears (`sig.minhash`, `CounterGather.orig_query_mh`) -/
+theorem object_ops_never_write_sketches (w : World) (op : Obj.Op) (hn : ∀ o, op ≠ .mh o)
+    (c : Nat) (cell : Cell) (hc : w.heap.cells[c]? = some cell) :
+    (Obj.step w op).1.heap.cells[c]? = some cell :=
+  Sm.Obj.obj_op_heap_cells src! w op hn c cell hc
+
+/-- `to_mutable()` of a signature (mutable or frozen) is a new, unfrozen cell with the same content … -/
+theorem sig_to_mutable_fresh (w : World) (r s : Nat) (hok : (Obj.step w (.sToMutable r s)).2 = .ok) :
+    ∃ sc, w.sigs.cell s = some sc ∧
+      (Obj.step w (.sToMutable r s)).1.sigs = w.sigs.alloc r ⟨sc.val, false⟩ :=
+  Sm.Obj.sig_to_mutable_fresh' src! w r s hok
+
+/-- … so whatever is then done through the copy leaves every pre-existing signature (the original included) alone -/
+theorem sig_copy_disjoint (w : World) (r s : Nat) (hok : (Obj.step w (.sToMutable r s)).2 = .ok)
+    (op : Obj.Op) (hrec : ∀ s', sigReceiver op = some s' → s' = r)
+    (c : Nat) (cell : SigCell) (hcell : w.sigs.cells[c]? = some cell) :
+    (Obj.step (Obj.step w (.sToMutable r s)).1 op).1.sigs.cells[c]? = some cell :=
+  Sm.Obj.sig_copy_disjoint' src! w r s hok op hrec c cell hcell
+
+/-- `with sig.update() as q: q.minhash = q.minhash.flatten()` (`Index.counter_gather`, the search commands) and
+    `q.name = …`: the result is a new frozen cell; sketches and views untouched -/
+theorem sig_update_fresh (w : World) (r s : Nat) (x : String) :
+    ((Obj.step w (.sUpdateFlat r s)).2 = .ok →
+      ∃ v, (Obj.step w (.sUpdateFlat r s)).1.sigs = w.sigs.alloc r ⟨v, true⟩ ∧
+        (Obj.step w (.sUpdateFlat r s)).1.heap = w.heap ∧ (Obj.step w (.sUpdateFlat r s)).1.views = w.views) ∧
+    ((Obj.step w (.sUpdateName r s x)).2 = .ok →
+      ∃ v, (Obj.step w (.sUpdateName r s x)).1.sigs = w.sigs.alloc r ⟨v, true⟩ ∧
+        (Obj.step w (.sUpdateName r s x)).1.heap = w.heap ∧ (Obj.step w (.sUpdateName r s x)).1.views = w.views) :=
+  ⟨fun h => Sm.Obj.sig_update_fresh' src! w r s _ h, fun h => Sm.Obj.sig_update_fresh' src! w r s _ h⟩
+
+/-- the consumer pattern of `GatherDatabases.__init__` (`query = query.to_mutable(); query.minhash = orig_query_mh`)
+    never writes a caller-owned cell: the whole effect is ONE fresh mutable signature -/
+theorem gather_init_writes_only_its_copy (w : World) (r s : Nat)
+    (hok : (Obj.step w (.sGatherInit r s)).2 = .ok) :
+    ∃ v, (Obj.step w (.sGatherInit r s)).1 = w.sigFresh r v false :=
+  Sm.Obj.gather_init_fresh' src! w r s hok
+
+/-- … and that rests on `to_mutable()` being a copy: over a `to_mutable()` that returns a MUTABLE signature
+    itself (the seeded change C15a) the same constructor overwrites the caller's query with the flattened one -/
+theorem gather_init_unsafe_if_to_mutable_aliases (w : World) (r s c : Nat) (sc : SigCell) (q : MH)
+    (hcid : w.sigs.cid s = some c) (hcell : w.sigs.cells[c]? = some sc) (hmut : sc.frozen = false)
+    (hnum : sc.val.mh.num = 0) (hq : gatherQueryMh sc.val.mh = .ok q) :
+    (gatherInitWith toMutableSigAliasing w r s).1.sigs.cells[c]? = some ⟨{ sc.val with mh := q }, false⟩ :=
+  Sm.Obj.gather_init_aliasing_overwrites' w r s c sc q hcid hcell hmut hnum hq
+
+/-- likewise `update()` rests on its copy: the variant "made more efficient by not copying" that its docstring warns
+    against (thaw, run the body, freeze) rewrites the frozen signature it was called on -/
+theorem update_unsafe_if_not_copying (w : World) (r s c : Nat) (sc : SigCell) (v : SigVal)
+    (body : SigVal → Except MH.Err SigVal)
+    (hcid : w.sigs.cid s = some c) (hcell : w.sigs.cells[c]? = some sc) (hf : sc.frozen = true)
+    (hb : body sc.val = .ok v) :
+    (updateInPlace w r s body).1.sigs.cells[c]? = some ⟨v, true⟩ :=
+  Sm.Obj.update_in_place_overwrites' w r s c sc v body hcid hcell hf hb
+
+/-- `Index.counter_gather` / `CounterGather.__init__` (`query_mh.copy().flatten()`): signatures and views untouched,
+    existing sketches untouched -/
+theorem counter_gather_writes_nothing (w : World) (r s : Nat) (ds : List Nat) :
+    (Obj.step w (.sCounterGather r s ds)).1.sigs = w.sigs ∧ (Obj.step w (.sCounterGather r s ds)).1.views = w.views ∧
+    ∀ (c : Nat) (cell : Cell), w.heap.cells[c]? = some cell →
+      (Obj.step w (.sCounterGather r s ds)).1.heap.cells[c]? = some cell :=
+  ⟨(Sm.Obj.counter_gather_others w r s ds).1, (Sm.Obj.counter_gather_others w r s ds).2,
+   fun c cell hc => Sm.Obj.obj_op_heap_cells src! w _ (by intro o h; cases h) c cell hc⟩
+
+/-- the only ways to a second handle on an EXISTING signature: `to_frozen()` / `copy()` of a frozen signature,
+    or a collection handing out the object it holds (`signatures()` of LinearIndex / MultiIndex / a lazy view) -/
+theorem sig_alias_only_frozen_or_held (w : World) (op : Obj.Op) (r c : Nat)
+    (hnew : (Obj.step w op).1.sigs.cid r = some c) (hold : w.sigs.cid r ≠ some c)
+    (hlt : c < w.sigs.cells.length) :
+    (∃ cell, w.sigs.cells[c]? = some cell ∧ cell.frozen = true) ∨ (∃ v i, op = .vGet r v i) :=
+  Sm.Obj.sig_alias_only' src! w op r c hnew hold hlt
+
+/-! # layer 3: collection views -/
+
+/-- frame rule: an existing view's own state (member list, selection dict, row list, picklists) can change only
+    through a handle bound to that very object, by `insert` or by `select` -/
+theorem view_frame (w : World) (op : Obj.Op) (c : Nat) (vc : ViewCell)
+    (hc : w.views.cells[c]? = some vc)
+    (hne : ∀ v, viewReceiver op = some v → w.views.cid v ≠ some c) :
+    (Obj.step w op).1.views.cells[c]? = some vc :=
+  Sm.Obj.view_frame' src! w op c vc hc hne
+
+/-- **select_frame**: `select(...)` on a view of a copying kind (LinearIndex, LazyLinearIndex, ZipFileLinearIndex
+    with or without manifest, MultiIndex, StandaloneManifestIndex) changes NO existing view cell — not even the
+    view it was called on (this is what the seeded change C15b broke) -/
+theorem select_frame (w : World) (op : Obj.Op) (v : Nat) (rc : ViewCell)
+    (hop : (∃ r kw, op = .vSelect r v kw) ∨ (∃ r names, op = .vSelectPick r v names))
+    (hv : w.views.cell v = some rc) (hk : rc.kind.inPlace = false)
+    (c : Nat) (vc : ViewCell) (hc : w.views.cells[c]? = some vc) :
+    (Obj.step w op).1.views.cells[c]? = some vc :=
+  Sm.Obj.select_frame' src! w op v rc hop hv hk c vc hc
+
+/-- … and returns a NEW cell -/
+theorem copying_select_fresh (w : World) (r v : Nat) (kw : Sel) (rc : ViewCell)
+    (hv : w.views.cell v = some rc) (hk : rc.kind.inPlace = false)
+    (hok : (Obj.step w (.vSelect r v kw)).2 = .ok) :
+    ∃ vc', selectOutcome w rc kw = .fresh vc' ∧ (Obj.step w (.vSelect r v kw)).1 = w.viewFresh r vc' :=
+  Sm.Obj.copying_select_fresh' w r v kw rc hv hk hok
+
+/-- **select_result_independent**: whatever is later done THROUGH the result (insert, a further select) leaves
+    every pre-existing view cell, the parent's included, as it was -/
+theorem select_result_independent (w : World) (r v : Nat) (kw : Sel) (rc : ViewCell)
+    (hv : w.views.cell v = some rc) (hk : rc.kind.inPlace = false)
+    (hok : (Obj.step w (.vSelect r v kw)).2 = .ok)
+    (op : Obj.Op) (hrec : ∀ v', viewReceiver op = some v' → v' = r)
+    (c : Nat) (vc : ViewCell) (hc : w.views.cells[c]? = some vc) :
+    (Obj.step (Obj.step w (.vSelect r v kw)).1 op).1.views.cells[c]? = some vc :=
+  Sm.Obj.select_result_independent' src! w r v kw rc hv hk hok op hrec c vc hc
+
+/-- what the new view SHARES with its parent, and nothing else: member signature objects (by reference — a
+    LinearIndex holds the caller's objects), manifest row dicts, the index a lazy view wraps, the store on disk.
+    The member list, the row list and the selection dict themselves are new values -/
+theorem select_shares_only (w : World) (vc vc' : ViewCell) (kw : Sel)
+    (h : selectOutcome w vc kw = .fresh vc') :
+    vc'.kind = vc.kind ∧ (∀ x, x ∈ vc'.sigs → x ∈ vc.sigs) ∧ (∀ x, x ∈ vc'.rows → x ∈ vc.rows) ∧
+    (vc.kind = .lazy → vc'.db = vc.db) ∧ (vc.kind.onDisk = true → vc'.store = vc.store) ∧
+    vc'.picks = [] ∧ vc'.vals = [] :=
+  Sm.Obj.select_shares' w vc vc' kw h
+
+/-- of the shared data, manifest rows and stores are immutable: no operation of any layer (manifest export,
+    select, insert, search …) ever writes an existing row or store — through every history -/
+theorem rows_never_written (w : World) (ops : List Obj.Op) (i : Nat) (row : Row) (h : w.rows[i]? = some row) :
+    (ops.foldl (fun w op => (Obj.step w op).1) w).rows[i]? = some row :=
+  Sm.Obj.rows_stable_foldl src! ops w i row h
+
+theorem stores_never_written (w : World) (op : Obj.Op) (i : Nat) (st : List SigVal)
+    (h : w.stores[i]? = some st) : (Obj.step w op).1.stores[i]? = some st :=
+  Sm.Obj.stores_stable src! w op i st h
+
+/-- the IN-PLACE kinds (SBT, LCA_Database): `select` is a documented mutator of its receiver and hands the
+    receiver back; without a picklist its criteria are mere checks and no view cell changes at all.
+    About these kinds C15 can only say which object is written (the receiver, `view_frame`), not that it is not -/
+theorem inplace_select_returns_self (w : World) (r v c : Nat) (kw : Sel) (rc : ViewCell)
+    (hcid : w.views.cid v = some c) (hv : w.views.cell v = some rc) (hk : rc.kind.inPlace = true)
+    (hok : (Obj.step w (.vSelect r v kw)).2 = .ok) :
+    (Obj.step w (.vSelect r v kw)).1.views.cid r = some c ∧
+    (Obj.step w (.vSelect r v kw)).1.views.cells = w.views.cells :=
+  Sm.Obj.inplace_select_returns_self' w r v c kw rc hcid hv hk hok
+
+/-! ### exhibits and non-vacuity (kernel-checked) -/
+
+/-- the names a view yields -/
+def namesOf (w : World) (v : Nat) : Option (List String) :=
+  (w.views.cell v).bind (fun vc => (viewSigs w vc).map (·.map (·.2.name)))
+
+def runOps (ops : List Obj.Op) : World := ops.foldl (fun w op => (Obj.step w op).1) World.empty
+
+/-- two signatures `a`, `b` in an SBT narrowed to the picklist {a, b} -/
+def sbtWorld : World :=
+  runOps [.mh (.new 0 0 1 false), .mh (.addMany 0 [5]), .sNew 0 0 "a" "", .sNew 1 0 "b" "",
+          .vSbt 0 [0, 1], .vSelectPick 1 0 ["a", "b"]]
+
+/-- what C15 CANNOT say about the in-place kinds, stated as it is in the code: a second picklist is REFUSED
+    (ValueError "we do not (yet) support multiple picklists") and nevertheless narrows the tree — `SBT.select` and
+    `LCA_Database.select` append the picklist before they raise (observation C15.2; candidate patch in patches/) -/
+theorem inplace_select_refused_still_narrows :
+    namesOf sbtWorld 0 = some ["a", "b"] ∧
+    (Obj.step sbtWorld (.vSelectPick 2 0 ["b"])).2 = .err "ValueError" ∧
+    namesOf (Obj.step sbtWorld (.vSelectPick 2 0 ["b"])).1 0 = some ["b"] := by
+  decide +kernel
+
+/-- the same history on a LinearIndex: select returns a new object, the receiver still yields both -/
+example :
+    let w := runOps [.mh (.new 0 0 1 false), .mh (.addMany 0 [5]), .sNew 0 0 "a" "", .sNew 1 0 "b" "",
+                     .vLinear 0 [0, 1], .vSelect 1 0 [(4, some 1)]]
+    namesOf w 0 = some ["a", "b"] ∧ namesOf w 1 = some [] ∧ w.views.cid 1 = some 1 := by
+  decide +kernel
+
+/-- a mutable query with abundances, `to_mutable()` returning `self`: after `GatherDatabases.__init__` the
+    caller's signature has lost its abundances (concrete instance of `gather_init_unsafe_if_to_mutable_aliases`);
+    with the real `to_mutable()` it keeps them -/
+example :
+    let w := runOps [.mh (.new 0 0 1 true), .mh (.addAb 0 5 3), .sNew 0 0 "q" ""]
+    ((w.sigs.cell 0).map (·.val.mh.abunds)) = some (some [3]) ∧
+    (((gatherInitWith toMutableSigAliasing w 1 0).1.sigs.cell 0).map (·.val.mh.abunds)) = some none ∧
+    (((Obj.step w (.sGatherInit 1 0)).1.sigs.cell 0).map (·.val.mh.abunds)) = some (some [3]) ∧
+    (((Obj.step w (.sGatherInit 1 0)).1.sigs.cell 1).map (·.val.mh.abunds)) = some none := by
+  decide +kernel
+
+/-- a frozen signature refuses its setters; its `minhash` is a new frozen sketch that refuses `add_hash` -/
+example :
+    let w := runOps [.mh (.new 0 0 1 false), .mh (.addMany 0 [5]), .sNew 0 0 "a" "", .sIntoFrozen 0, .sMinhash 1 0]
+    (Obj.step w (.sSetName 0 "x")).2 = .err "ValueError" ∧
+    (Obj.step w (.sSetMh 0 0)).2 = .err "ValueError" ∧
+    (Obj.step w (.mh (.add 1 7))).2 = .err "TypeError" ∧
+    (Obj.step w (.mh (.add 0 7))).2 = .ok ∧
+    (((Obj.step w (.mh (.add 0 7))).1.sigs.cell 0).map (·.val.mh.mins)) = some [5] := by
+  decide +kernel
 
 end Sm.C15
